@@ -6,6 +6,7 @@ package main
 // correspondence check.
 
 import (
+	"runtime"
 	"bytes"
 	"fmt"
 	"io"
@@ -258,6 +259,7 @@ func (r *runner) runMain(c *Case, res *result) {
 	defer r.put(filepath.Join(".github", "workflows", "test.yml"), nil)
 	args := []string{"actionlint", "-shellcheck=", "-pyflakes=", "-no-color"}
 	fl, ver := "FlagsOk", false
+	nfiles := 1
 	variant := c.Idx % 12
 	switch variant {
 	case 7:
@@ -271,6 +273,14 @@ func (r *runner) runMain(c *Case, res *result) {
 		ver = true
 	case 10:
 		args = append(args, filepath.Join(r.scratch, "does-not-exist.yml"))
+		if c.Idx%24 == 10 {
+			// more unreadable files than CPUs, and readable ones queued behind them: a fatal error, no hang
+			for k := 0; k < runtime.NumCPU()+2; k++ {
+				args = append(args, filepath.Join(r.scratch, fmt.Sprintf("does-not-exist-%d.yml", k)))
+			}
+			args = append(args, path, path)
+			nfiles = runtime.NumCPU() + 5
+		}
 	case 11:
 		args = append(args, "-format", "{{json .}}", path)
 	default:
@@ -302,7 +312,11 @@ func (r *runner) runMain(c *Case, res *result) {
 				fatal = true
 				return
 			}
-			errs, err := l.LintFiles([]string{args[len(args)-1]}, nil)
+			files := []string{args[len(args)-1]}
+			if nfiles > 1 {
+				files = args[len(args)-nfiles:]
+			}
+			errs, err := l.LintFiles(files, nil)
 			if err != nil {
 				fatal = true
 				return
